@@ -144,3 +144,24 @@ vharness!(c29_q_fn_pointer_variance, 8, {
     cover!(ambient == Variance::Contravariant);
 });
 
+
+// Arity (added after seeded change R4-C29-a: the parameter slice of `b` was cut with `a`'s
+// length, so a shorter left-hand fn pointer related to a longer one): fn pointers of different
+// arity never relate, whichever side is longer, and nothing past the shorter one is compared.
+vharness!(c29_q_fn_pointer_arity, 8, {
+    let ambient = sym_variance();
+    // fn(10) -> 12  vs  fn(10, 11) -> 12
+    let short = FnSubst(subst(&[ga_ty(foreign(10)), ga_ty(foreign(12))]));
+    let long = FnSubst(subst(&[ga_ty(foreign(10)), ga_ty(foreign(11)), ga_ty(foreign(12))]));
+    let mut r = Recorder::new();
+    assert!(Zip::zip_with(&mut r, ambient, &short, &long).is_err(), "C29: fn pointers of different arity relate (shorter on the left)");
+    let mut r2 = Recorder::new();
+    assert!(Zip::zip_with(&mut r2, ambient, &long, &short).is_err(), "C29: fn pointers of different arity relate (longer on the left)");
+    // fn() -> 12  vs  fn(10, 11) -> 12: two apart
+    let none = FnSubst(subst(&[ga_ty(foreign(12))]));
+    let mut r3 = Recorder::new();
+    assert!(Zip::zip_with(&mut r3, ambient, &none, &long).is_err(), "C29: fn pointers of different arity relate (no parameters on the left)");
+    let mut r4 = Recorder::new();
+    assert!(Zip::zip_with(&mut r4, ambient, &long, &none).is_err(), "C29: fn pointers of different arity relate (no parameters on the right)");
+    cover!(ambient == Variance::Covariant);
+});
